@@ -102,6 +102,7 @@ type tlsEnv struct {
 	exited   atomic.Bool
 	gaveUp   atomic.Bool
 	skips    atomic.Int32 // expectations a lenient peer gave up waiting for
+	finished atomic.Bool  // the peer went through its whole script
 }
 
 func newTLSEnv(r *run) *tlsEnv {
@@ -258,8 +259,51 @@ var errPeer = errors.New("c04: peer gave up")
 
 const startTLSAd = `<starttls xmlns='` + hspeer.NSTLS + `'><required/></starttls>`
 
+// startTLSOnlyInit: a client configured with StartTLS only, talking to a
+// server that advertises <starttls/> without <required/>: a features list
+// with no required feature from which a restarting feature is negotiated.
+// After the TLS handshake the restarted stream has an empty features list.
+func startTLSOnlyInit() *handshake {
+	return &handshake{Name: "starttls-only-init", Key: "starttls-only-init", Role: "init", Expect: "ok", TLS: true, MaxBytes: tlsMaxBytes, MaxOps: tlsMaxOps, New: func() *attempt {
+		a := &attempt{}
+		a.call = func(ctx context.Context, conn io.ReadWriter, log *hspeer.Log) (*xmpp.Session, error) {
+			fs := hspeer.InstrumentAll(log, xmpp.StartTLS(clientTLS()))
+			return xmpp.NewSession(ctx, serverJID, clientJID, conn, 0, xmpp.NewNegotiator(cfgOf(fs)))
+		}
+		a.tlsPeer = func(e *tlsEnv) {
+			far := quietConn{Conn: e.far, e: e}
+			p := &rawPeer{e: e}
+			p.use(far)
+			if _, ok := p.expect("stream"); !ok {
+				return
+			}
+			if !p.say(srvHeader(false, "s1") + hspeer.Features(false, hspeer.El(hspeer.NSTLS, "starttls"))) {
+				return
+			}
+			if _, ok := p.expect("starttls"); !ok {
+				return
+			}
+			if !p.say(hspeer.El(hspeer.NSTLS, "proceed")) {
+				return
+			}
+			tc := tls.Server(far, serverTLS())
+			if tc.Handshake() != nil {
+				return
+			}
+			p.use(tc)
+			if _, ok := p.expect("stream"); !ok {
+				return
+			}
+			e.finished.Store(true) // the peer's last contribution (see above)
+			p.say(srvHeader(false, "s2") + hspeer.Features(false, ""))
+		}
+		return a
+	}}
+}
+
 func tlsHandshakes() []*handshake {
 	return []*handshake{
+		startTLSOnlyInit(),
 		{Name: "starttls-init", Key: "starttls-init", Role: "init", Expect: "ok", TLS: true, MaxBytes: tlsMaxBytes, MaxOps: tlsMaxOps, New: func() *attempt {
 			a := &attempt{}
 			a.call = func(ctx context.Context, conn io.ReadWriter, log *hspeer.Log) (*xmpp.Session, error) {
@@ -310,6 +354,9 @@ func tlsHandshakes() []*handshake {
 				if !ok {
 					return
 				}
+				// the peer's last contribution: marked before it is sent, the library
+				// cannot complete before it has read it
+				e.finished.Store(true)
 				p.say(`<iq type='result' id='` + hspeer.Esc(id) + `'><bind xmlns='` + hspeer.NSBind + `'><jid>` + client + `</jid></bind></iq>`)
 			}
 			return a
@@ -360,6 +407,7 @@ func tlsHandshakes() []*handshake {
 				if _, ok := p.expect("stream", "features"); !ok {
 					return
 				}
+				e.finished.Store(true) // the peer's last contribution (see above)
 				if !p.say(`<iq type='set' id='b1'><bind xmlns='` + hspeer.NSBind + `'><resource>res</resource></bind></iq>`) {
 					return
 				}
